@@ -17,8 +17,8 @@ CLAIMED = {
 }
 
 CLAIMED.update({
-    'C11': dict(cat='other', tech='interprocedural lock typestate, path-sensitive conservation-law dataflow, symbolic capacity comparison, CFG cut rules on LLVM IR',
-                text='Decides the safety skeleton the termination argument rests on, on every path and in every calling '
+    'C11': dict(cat='other', tech='finite-domain tabulation of the deque ring arithmetic (head/index modulo modulus, 32-bit arithmetic as compiled); interprocedural lock typestate, path-sensitive conservation-law dataflow, symbolic capacity comparison, CFG cut rules on LLVM IR',
+                text='Every new deque head stays in the ring and moves by one position, every index computed from head/size stays below modulus; an object released at a site no law knows is a violation. Decides the safety skeleton the termination argument rests on, on every path and in every calling '
                      'context: monitor discipline (no double lock / unlock of unheld mutex, role contracts of tasks, '
                      'predicates and callbacks, acyclic lock order), conservation of worker/input/output tokens on every '
                      'path of every task, callback and I/O loop in all three modes, queue capacities versus token totals '
@@ -96,8 +96,8 @@ CLAIMED.update({
 })
 
 CLAIMED.update({
-    'C05': dict(cat='other', tech='exhaustive finite-domain tabulation of table-driven IR fragments (delta code, selector code, header automaton) against the reference rule; path-sensitive abstract exploration of the decompressor tasks; guard/dominance rules',
-                text='Decides: (a) the delta-code step of retrieve() (tables L/R/RH/RL + range test + update) agrees with the '
+    'C05': dict(cat='other', tech='abstract interpretation of emit() against the un-RLE automaton of the format (disjunctive interval/partition/typestate domain, fixpoint over the resume states); exhaustive finite-domain tabulation of table-driven IR fragments (delta code, selector code, header automaton) against the reference rule; path-sensitive abstract exploration of the decompressor tasks; guard/dominance rules',
+                text='emit() is walked abstractly against the expander automaton for every amount of input/output space, every count value and every pattern of equal bytes, from the state decode() leaves and from every state a MORE return saves: stores only at the cursor and within the space offered; outside a repeat the byte stored is the next input byte; after four equal bytes the next byte is a count and exactly that many copies follow; ERR_RUNLEN exactly when the input ends between the fourth byte and its count; OK/MORE only in the right situations with a saved state that describes where the expander stands. Decides: (a) the delta-code step of retrieve() (tables L/R/RH/RL + range test + update) agrees with the '
                      'bzip2 1.0.x step-by-step rule on all 4608 (position, length, 6-bit pattern) cases - consumed bits, '
                      'resulting length, accept/reject - and the selector unary code on all 320 cases; (b) every result of '
                      'retrieve()/emit()/parse() is carried unchanged to do_reorder()/do_parse(), where every value other '
@@ -119,8 +119,8 @@ CLAIMED.update({
 })
 
 CLAIMED.update({
-    'C07': dict(cat='other', tech='path-sensitive abstract exploration of the decompressor tasks (error-code chain), tabulation of parse() end-of-input results, guard cuts in work(), must-pass/never-return rules on fail*/bailout/halt/cleanup, call-closure deny-list on the abnormal exit path',
-                text='Decides that every DETECTED error ends in a diagnostic and exit status 1 with the partial output '
+    'C07': dict(cat='other', tech='abstract interpretation of emit() against the un-RLE automaton of the format (disjunctive interval/partition/typestate domain, fixpoint over the resume states) (runlen/space/read rules); path-sensitive abstract exploration of the decompressor tasks (error-code chain), tabulation of parse() end-of-input results, guard cuts in work(), must-pass/never-return rules on fail*/bailout/halt/cleanup, call-closure deny-list on the abnormal exit path',
+                text='emit(): a block ending right after four equal bytes is rejected with ERR_RUNLEN on every path (abstract walk). Decides that every DETECTED error ends in a diagnostic and exit status 1 with the partial output '
                      'removed: results of retrieve()/emit()/parse() travel unchanged to do_reorder()/do_parse(), where every '
                      'value but OK/MORE/FINISH reaches failf(err2str(code)); truncation inside a stream (incl. inside the '
                      'zero padding) is ERR_EOF; a first header other than BZh1..BZh9 fails unless -f with stdout; fail* '
@@ -128,8 +128,8 @@ CLAIMED.update({
                      'other threads, which halt() turns into bailout(); cleanup() unlinks the partial output; nothing on '
                      'the abnormal exit path takes the stderr lock (a failed thread dies holding it). Does NOT decide that '
                      'every malformed stream is detected, nor absence of crashes/hangs in the codec.', ref='5 (C07)'),
-    'C10': dict(cat='other', tech='path-sensitive abstract exploration over position-comparison facts (LT/EQ/GT relation sets) and candidate bookkeeping flags; who-writes and call-closure rules',
-                text='Decides that output and failure are determined only where the sequential parser\'s position is '
+    'C10': dict(cat='other', tech='conservation laws of the expansion pipeline (shared with C11); path-sensitive abstract exploration over position-comparison facts (LT/EQ/GT relation sets) and candidate bookkeeping flags; who-writes and call-closure rules',
+                text='A speculative task gives back its work unit on every path (token laws). Decides that output and failure are determined only where the sequential parser\'s position is '
                      'matched: order_q is fed only by do_parse() with the parser\'s own position; do_reorder() takes the '
                      'order head, writes and fails only for a block not behind it, discards (silently, freed) exactly the '
                      'blocks behind it; can_reorder() is tabulated against its specification; do_scan() creates candidates '
@@ -149,8 +149,8 @@ CLAIMED.update({
                      'argument, linked before argv[1..]; --small forced off before the first operand; -S sets a variable '
                      'nothing reads; documented no-ops have the empty effect set. A hand-written replacement of the strtok '
                      'idiom makes the check exit 2 (not decidable here) rather than pass.', ref='5 (C22)'),
-    'C09': dict(cat='other', tech='purity/effect analysis of the decoder units, provenance leaves of codec call arguments, forward slice of scheduler counters in task bodies, SSA re-entry-merge rule for resumable functions, SSA definite-assignment rule, who-reads rule for the output mode',
-                text='Decides the structural reasons the result cannot depend on configuration or schedule: decode.c/parse.c/'
+    'C09': dict(cat='other', tech='abstract interpretation of emit() against the un-RLE automaton of the format (disjunctive interval/partition/typestate domain, fixpoint over the resume states) (resume-state rules); conservation laws of the expansion pipeline; purity/effect analysis of the decoder units, provenance leaves of codec call arguments, forward slice of scheduler counters in task bodies, SSA re-entry-merge rule for resumable functions, SSA definite-assignment rule, who-reads rule for the output mode',
+                text='The resume switch of emit() is checked against the suspension points of its main loop by the abstract walk (what a MORE return saves is exactly what the next call needs), and the token laws of the expansion pipeline (shared with C11) show that no task keeps a work unit or slot: a leak stalls the run only for some worker counts/schedules. Decides the structural reasons the result cannot depend on configuration or schedule: decode.c/parse.c/'
                      'crctab.c keep no state outside what they are handed, store to no global, read only constant tables and '
                      'call nothing outside the codec; arguments of retrieve/decode/emit/parse/scan have no schedule-dependent '
                      'leaf and task bodies neither branch on scheduler counters nor let them flow into block data; every '
@@ -181,8 +181,8 @@ CLAIMED.update({
                      'prefix code with lengths 1..20 for all 256 alphabet sizes; selector/table buffers are sized for the '
                      'format maxima. Does NOT decide table correctness of real blocks, the primary index or the N*100000 '
                      'bound (C04 arithmetic), nor that libbz2 decodes the output.', ref='5 (C02)'),
-    'C06': dict(cat='other', tech='finite-domain tabulation of delta/selector steps and the header automaton, field-width and limit comparisons read from the IR of retrieve(), table equivalence (rand_table, crc_table), compile-time witnesses, path-sensitive size test in do_reorder()',
-                text='Decides that the decoder\'s hard limits are not stricter than the format and that its tables agree with '
+    'C06': dict(cat='other', tech='abstract interpretation of emit() against the un-RLE automaton of the format (disjunctive interval/partition/typestate domain, fixpoint over the resume states); finite-domain tabulation of delta/selector steps and the header automaton, field-width and limit comparisons read from the IR of retrieve(), table equivalence (rand_table, crc_table), compile-time witnesses, path-sensitive size test in do_reorder()',
+                text='emit(): ERR_RUNLEN only when the count is really missing, and every resume state continues exactly where the suspension stopped (abstract walk, lib/unrle.py). Decides that the decoder\'s hard limits are not stricter than the format and that its tables agree with '
                      'it: delta/selector steps equal the reference rule on all cases; the header automaton accepts every '
                      'valid header sequence (concatenated streams of any level, byte alignment, trailing data); field widths '
                      '1/24/16/16/3/15/5; 2..6 tables; 1..32767 selectors with surplus clamped no lower than 18001; primary '
@@ -190,8 +190,8 @@ CLAIMED.update({
                      'rand_table equals the reference copies under tests/, crc_table the CRC-32/BZIP2 table; buffers hold '
                      'the format maxima. Does NOT decide acceptance of arbitrary valid streams (decoding arithmetic).',
                 ref='5 (C06)'),
-    'C08': dict(cat='other', tech='SSA definite-assignment rule with constant-phi edge threading, re-entry merge rule for resumable functions, compile-time witnesses, index-closure by structural upper bounds (table maxima, store-side field invariants), symbolic queue capacities, guard rules',
-                text='Decides: no local is read before assignment on any path of any function; locals live across suspension '
+    'C08': dict(cat='other', tech='abstract interpretation of emit() against the un-RLE automaton of the format (disjunctive interval/partition/typestate domain, fixpoint over the resume states) (space/read rules); finite-domain tabulation of the deque ring arithmetic; SSA definite-assignment rule with constant-phi edge threading, re-entry merge rule for resumable functions, compile-time witnesses, index-closure by structural upper bounds (table maxima, store-side field invariants), symbolic queue capacities, guard rules',
+                text='emit() stores only inside the space the caller offered and follows the chain only while input is left; every deque index/head computed from head/size/modulus stays below modulus (tabulated with 32-bit arithmetic). Decides: no local is read before assignment on any path of any function; locals live across suspension '
                      'points of retrieve()/emit() are re-established; every buffer whose size is a function of format '
                      'constants is large enough; every index into a constant table (L/R/RH/RL/table, crc_table, rand_table, '
                      'lg_table, big_dfa columns, ...) is provably below its dimension, the scanner never indexes mini_dfa '
